@@ -280,6 +280,8 @@ class Prop:
         worst, where = self.term_compare(code, spec, hyps, pool)
         rec['term_compare_worst'] = float(worst) if worst is not None else None
         if worst is None:
+            rec['term_compare'] = jsonable(where)
+        if worst is None:
             line = 'UNDECIDED property=%s obligation=%s path=%s (not discharged; the domain of the clause could not be sampled for a numeric comparison of its two sides)' % (self.pid, name, path)
             self.lines.append(line)
             print(line, flush=True)
@@ -392,7 +394,18 @@ class Prop:
             if ok >= n:
                 break
         if ok == 0:
-            return None, dict(n=0)
+            # which hypotheses the drawn points fail (diagnosis of an unsampled domain; recorded with the obligation)
+            cnt = {}
+            for env in (envs[:40] if os.environ.get('VERIF_DEBUG_SAMPLES') == '1' else []):      # slow on large path conditions: on request only
+                for h in hyps:
+                    try:
+                        v = E.evaluate(h, env)
+                    except Exception as ex_:
+                        v = 'raises %s' % type(ex_).__name__
+                    if v is not True:
+                        k_ = str(h).replace('\n', ' ')[:160] + (' [%s]' % v if v is not False else '')
+                        cnt[k_] = cnt.get(k_, 0) + 1
+            return None, dict(n=0, drawn=len(envs), hypotheses_failed=sorted(cnt.items(), key=lambda kv: -kv[1])[:4])
         where['n'] = ok
         return worst, where
 
